@@ -175,7 +175,16 @@ func (r *BaseOperationRepo) getDeletedOperations() (map[string]*types.Operation,
 }
 
 func (r *BaseOperationRepo) initJsonKey(key string) error {
-	err := r.state.Set(key, []byte("{}"))
+	bz, err := r.state.Get(key)
+	if err != nil {
+		return fmt.Errorf("failed to read state: %w", err)
+	}
+	// keep what an earlier run stored: the pool must survive a restart
+	if bz != nil {
+		return nil
+	}
+
+	err = r.state.Set(key, []byte("{}"))
 	if err != nil {
 		return fmt.Errorf("failed to init state: %w", err)
 	}
